@@ -132,7 +132,11 @@ def rand_data(rng, kind, n):
     if kind.startswith('dt64:'):
         unit = kind[5:]
         vals = np.array([rand_dt(rng) for _ in range(n)], dtype='M8[us]')
-        if unit != 'us':
+        if unit == 'ns':
+            # datetime64[ns] only spans 1678..2262: keep the values inside
+            lo, hi = np.datetime64('1700-01-01', 'us'), np.datetime64('2200-01-01', 'us')
+            vals = np.array([v if lo < v < hi else np.datetime64('2001-02-03T04:05:06.789012', 'us') for v in vals], dtype='M8[us]')
+        elif unit != 'us':
             vals = vals.astype('M8[%s]' % unit).astype('M8[us]')
         arr = vals.astype('M8[%s]' % unit)
         return DataSpec(arr, kind, vals, ('exact', np.dtype('M8[us]')) if n else ('any', None))
@@ -146,7 +150,7 @@ def rand_data(rng, kind, n):
 
 
 DATA_KINDS = (['np:' + d for d in NUM_DTYPES] * 2 + ['intlist:' + k for k in ('i8', 'u8', 'i16', 'u16', 'i32', 'u32', 'i64', 'u64')] +
-              ['floatlist', 'strlist', 'strarray', 'strarray', 'dt64:us', 'dt64:ms', 'dt64:s', 'pydtlist'])
+              ['floatlist', 'strlist', 'strarray', 'strarray', 'dt64:us', 'dt64:ms', 'dt64:s', 'dt64:ns', 'dt64:D', 'pydtlist'])
 
 
 class Program(object):
